@@ -387,7 +387,11 @@ class NFA:
         raise AnalysisError(f"unknown regex node {k}")
 
     def add_rule(self, root, node, label):
+        first = len(self.eps)
         a, b = self.build(node)
+        self.owner = getattr(self, "owner", {})
+        for q in range(first, len(self.eps)):
+            self.owner[q] = label
         self.eps[root].append((a, None))
         acc = self.new()
         self.accept[acc] = label
@@ -610,66 +614,57 @@ def nonempty_word(d: DFA):
 # ---------------------------------------------------------------------------
 # ambiguity: exponential degree (EDA) on the look-ahead-resolved NFA
 # ---------------------------------------------------------------------------
-def eda_witness(nfa: NFA, root: int, limit=3_000_000):
-    """Exponential ambiguity: a state q and a word w with two distinct q -w-> q paths in the trim automaton.
+def eda_witness(nfa: NFA, root: int, limit=4_000_000):
+    """Exponential degree of ambiguity (EDA): a state q and a word w with two distinct q -w-> q paths.
 
-    The NFA is first made epsilon-free and look-ahead exact by pairing each consuming state with the (guessed) next
-    symbol.  EDA holds iff the square automaton has a strongly connected component containing a diagonal pair (p,p)
-    and an off-diagonal pair.  Returns a description of the pumpable construct, or None.
+    The NFA is made epsilon-free and look-ahead exact by pairing each consuming state with the next symbol
+    (configuration (q, a): at q, about to read a).  EDA holds iff the square of the configuration graph,
+    restricted to useful configurations, has a strongly connected component containing a diagonal pair (p,p) and
+    an off-diagonal pair, or a cycle edge with two distinct epsilon paths.  Returns a witness dict or None.
     """
     alpha = nfa.alpha
-    S = syms(alpha)
-    # consuming configurations: (state, a) where state has an edge and a is the symbol about to be read
-    # successor multiset: after reading a from q (a in edge set) go to tgt; closure(tgt, b) for next symbol b gives consuming states
+    SY = list(range(alpha.n))
     memo = {}
 
-    def succ(q, a):
-        key = (q, a)
-        if key in memo:
-            return memo[key]
-        cs, tgt = nfa.edge[q]
+    def after(tgt):
+        """configs reachable from NFA state tgt through epsilon edges: list of ((q2,b), multiplicity)"""
+        if tgt in memo:
+            return memo[tgt]
         out = []
-        if a != END and a in cs:
-            for b in S:
-                paths = _closure_paths(nfa, tgt, b)
-                for q2, cnt in paths.items():
-                    if nfa.edge[q2] is not None and b != END:
-                        out.append(((q2, b), cnt))
-        memo[key] = out
+        for b in SY:
+            for q2, cnt in _closure_paths(nfa, tgt, b).items():
+                if nfa.edge[q2] is not None and b in nfa.edge[q2][0]:
+                    out.append(((q2, b), cnt))
+        memo[tgt] = out
         return out
 
-    # reachable configurations from root
-    init = []
-    for b in S:
-        for q2, cnt in _closure_paths(nfa, root, b).items():
-            if nfa.edge[q2] is not None and b != END:
-                init.append(((q2, b), cnt))
-    # restrict to configurations that lie on a cycle region reachable from init (trim to useful: can reach accept) - over-approximate by reachability
+    def succ(c):
+        q, a = c
+        return after(nfa.edge[q][1])
+
+    init = [c for c, _ in after(root)]
     reach = set()
-    dq = deque(c for c, _ in init)
+    dq = deque(init)
     while dq:
         c = dq.popleft()
         if c in reach:
             continue
         reach.add(c)
-        for c2, _ in succ(*c):
+        for c2, _ in succ(c):
             if c2 not in reach:
                 dq.append(c2)
-    # co-reachability to an accepting closure (useful states only)
-    useful = set()
     rev = {}
+    accepting = set()
     for c in reach:
-        for c2, _ in succ(*c):
+        for c2, _ in succ(c):
             rev.setdefault(c2, []).append(c)
-    accepting_cfg = set()
-    for (q, a) in reach:
-        cs, tgt = nfa.edge[q]
-        if a in cs:
-            for b in S:
-                if any(nfa.accept[q2] is not None for q2 in _closure_paths(nfa, tgt, b)):
-                    accepting_cfg.add((q, a))
-                    break
-    dq = deque(accepting_cfg)
+        tgt = nfa.edge[c[0]][1]
+        for b in SY + [END]:
+            if any(nfa.accept[q2] is not None for q2 in _closure_paths(nfa, tgt, b)):
+                accepting.add(c)
+                break
+    useful = set()
+    dq = deque(accepting)
     while dq:
         c = dq.popleft()
         if c in useful:
@@ -678,39 +673,92 @@ def eda_witness(nfa: NFA, root: int, limit=3_000_000):
         for p in rev.get(c, []):
             if p not in useful:
                 dq.append(p)
-    # a multiplicity > 1 on a cycle edge is already EDA; otherwise analyse pairs
-    # square automaton on useful configurations sharing the same next symbol
-    def succ_u(c):
-        return [(c2, cnt) for c2, cnt in succ(*c) if c2 in useful]
 
-    # Tarjan-free approach: for each useful config p, explore pairs reachable from (p,p); EDA iff (p,p) reachable again through an off-diagonal pair
-    # (or through a parallel edge).  Bounded by limit.
-    work = 0
-    for p in sorted(useful):
-        # quick filter: p must be on a cycle
-        start = (p, p, False)
-        seen = {start}
-        dq = deque([start])
-        parent = {}
-        while dq:
-            c1, c2, off = dq.popleft()
-            s1 = succ_u(c1)
-            s2 = succ_u(c2) if c2 != c1 else s1
-            for (n1, k1) in s1:
-                for (n2, k2) in s2:
-                    if n1[1] != n2[1]:
-                        continue   # both copies read the same word: same next symbol
-                    noff = off or (n1 != n2) or (c1 == c2 and n1 == n2 and k1 > 1)
-                    if n1 == p and n2 == p and noff:
-                        return {"state": p[0], "symbol": alpha.show([p[1]]), "via": (c1[0], c2[0]),
-                                "word_hint": alpha.show([c1[1]])}
-                    nx = (n1, n2, noff)
-                    if nx not in seen:
-                        seen.add(nx)
-                        dq.append(nx)
-                        work += 1
-                        if work > limit:
+    def usucc(c):
+        return [(c2, k) for c2, k in succ(c) if c2 in useful]
+
+    # SCCs of the configuration graph itself (to know which edges lie on cycles)
+    def sccs(nodes, nexts):
+        index, low, onst, st, comp = {}, {}, set(), [], {}
+        counter = [0]
+        ncomp = [0]
+        for root_ in nodes:
+            if root_ in index:
+                continue
+            work = [(root_, iter(nexts(root_)))]
+            index[root_] = low[root_] = counter[0]
+            counter[0] += 1
+            st.append(root_)
+            onst.add(root_)
+            while work:
+                v, it = work[-1]
+                advanced = False
+                for w in it:
+                    if w not in index:
+                        index[w] = low[w] = counter[0]
+                        counter[0] += 1
+                        st.append(w)
+                        onst.add(w)
+                        work.append((w, iter(nexts(w))))
+                        advanced = True
+                        if counter[0] > limit:
                             raise AnalysisError("ambiguity analysis exceeded its work limit")
+                        break
+                    elif w in onst:
+                        low[v] = min(low[v], index[w])
+                if advanced:
+                    continue
+                work.pop()
+                if work:
+                    u = work[-1][0]
+                    low[u] = min(low[u], low[v])
+                if low[v] == index[v]:
+                    while True:
+                        w = st.pop()
+                        onst.discard(w)
+                        comp[w] = ncomp[0]
+                        if w == v:
+                            break
+                    ncomp[0] += 1
+        return comp
+
+    comp1 = sccs(sorted(useful), lambda c: [c2 for c2, _ in usucc(c)])
+    size1 = {}
+    for c, k in comp1.items():
+        size1[k] = size1.get(k, 0) + 1
+    selfloop = {c for c in useful if any(c2 == c for c2, _ in usucc(c))}
+    cyclic = {c for c in useful if size1[comp1[c]] > 1 or c in selfloop}
+    # parallel epsilon paths on a cycle edge
+    for c in cyclic:
+        for c2, k in usucc(c):
+            if k > 1 and c2 in cyclic and comp1[c2] == comp1[c]:
+                return {"kind": "two epsilon paths on a loop", "state": c[0], "symbol": alpha.show([c[1]]), "next_state": c2[0]}
+
+    def pair_next(pc):
+        c1, c2 = pc
+        s1 = usucc(c1)
+        s2 = s1 if c2 == c1 else usucc(c2)
+        out = []
+        for n1, _ in s1:
+            if n1 not in cyclic:
+                continue
+            for n2, _ in s2:
+                if n2[1] == n1[1] and n2 in cyclic and comp1[n1] == comp1[c1] and comp1[n2] == comp1[c2]:
+                    out.append((n1, n2))
+        return out
+
+    starts = [(c, c) for c in sorted(cyclic)]
+    comp2 = sccs(starts, pair_next)
+    groups = {}
+    for pc, k in comp2.items():
+        groups.setdefault(k, []).append(pc)
+    for k, members in groups.items():
+        diag = [pc for pc in members if pc[0] == pc[1]]
+        off = [pc for pc in members if pc[0] != pc[1]]
+        if diag and off and (len(members) > 1):
+            d, o = diag[0], off[0]
+            return {"kind": "two distinct loops on the same word", "state": d[0][0], "symbol": alpha.show([d[0][1]]),
+                    "diverges_to": (o[0][0], o[1][0]), "diverge_symbol": alpha.show([o[0][1]]), "scc_size": len(members)}
     return None
 
 
